@@ -314,6 +314,8 @@ func (e *Engine) cmdCheck(prop, tier, evid, known, replayDir string, replay bool
 		// a record and its copy are duplicates only if the copy has every field
 		all = append(all, e.copyFieldObligations()...)
 	case "C10":
+		// what is signed is a copy of the records: the copy must have every field (APL negation flag, option fields)
+		all = append(all, e.copyFieldObligations()...)
 		all = append(all, e.canonObligations()...)
 		all = append(all, e.algorithmTableObligations()...)
 	case "C17", "C18":
